@@ -177,9 +177,28 @@ def run(chk):
                  "bit_vector_get_bit(_used_bit_vector, same index) (sibling guard of release/shrink/query)")
     nscan = 0
     span_sites = []
+    scan_helpers = {}
+    for name, fn in fns.items():
+        if "::" in name and not name.startswith("JitAllocator_") and not name.startswith("JitAllocatorBlock_"):
+            continue
+        for i, x in fn.calls(lambda x: x.get("cn") == "bit_vector_index_of"):
+            if x.get("args") and "_stop_bit_vector" in fn.text(x["args"][0]) and len(x["args"]) > 1:
+                ap = fn.access_path(x["args"][1])
+                for k_, p_ in enumerate(fn.params):
+                    if ap == p_["name"] and "Impl" not in name:
+                        scan_helpers[name] = k_
     for name, fn in fns.items():
         scans = [(i, x) for i, x in fn.calls(lambda x: x.get("cn") == "bit_vector_index_of")
                  if x.get("args") and "_stop_bit_vector" in fn.text(x["args"][0])]
+        # ... or through a unit-local helper that scans the stop bits from one of its parameters: judged at the call with that argument
+        wrapped = []
+        for i, x in fn.calls(lambda x: x["k"] == "call" and (x.get("callee") or "").replace("asmjit::", "") in scan_helpers):
+            k_ = scan_helpers[(x.get("callee") or "").replace("asmjit::", "")]
+            if k_ < len(x.get("args", [])):
+                wrapped.append((i, {"args": [None, x["args"][k_]]}))
+        if name in scan_helpers:
+            scans = []          # the helper itself is judged at its call sites
+        scans = scans + wrapped
         if not scans:
             continue
 
@@ -190,22 +209,15 @@ def run(chk):
                 return fn.access_path(x["args"][1])
             return None
 
-        def helper_idx(atom):
-            """block->is_span_start(idx)-like helper: a bool method whose single return is a conjunction that tests the used bit of its
-            parameter (-> 'used') and a bit at parameter - 1 (-> 'span-start')"""
-            x = fn.e(atom)
-            if not (x and x["k"] == "mcall" and len(x.get("args", [])) == 1):
-                return None, ()
-            g = fns.get((x.get("callee") or "").replace("asmjit::", ""))
-            if g is None or len(g.params) != 1:
-                return None, ()
-            rets = list(g.return_sites())
-            if len(rets) != 1:
-                return None, ()
-            body = g.e(rets[0][2]).get("val")
-            pname = g.params[0]["name"]
-            kinds = set()
-            conj, stack = [], [body]
+        def conjuncts_of(g, e, depth=0):
+            """conjuncts of a condition, bool locals of g with one initialiser resolved"""
+            out, stack = [], [e]
+            linit = {}
+            for d_ in g.ex.values():
+                if d_["k"] == "decl":
+                    for v_ in d_["vars"]:
+                        if v_.get("init") is not None and "bool" in (v_.get("ty") or ""):
+                            linit[v_["did"]] = v_["init"]
             while stack:
                 c = stack.pop()
                 cx = g.e(c)
@@ -214,17 +226,52 @@ def run(chk):
                     cx = g.e(c)
                 if cx and cx["k"] == "binop" and cx["op"] == "&&":
                     stack += [cx["lhs"], cx["rhs"]]
+                elif cx and cx["k"] == "ref" and cx.get("did") in linit and depth < 3:
+                    stack.append(linit[cx["did"]])
                 else:
-                    conj.append(c)
-            for c in conj:
+                    out.append(c)
+            return out
+
+        def helper_facts(ctx, atom, depth=0):
+            """[(access path in ctx, kind)] established when the bool helper call `atom` (a method with one parameter or a unit-local
+            free function) returns true: 'used' = the used bit of that index was tested, 'span-start' = also the stop bit of index - 1"""
+            x = ctx.e(atom)
+            if not (x and x["k"] in ("mcall", "call") and x.get("args")) or depth > 2:
+                return []
+            g = fns.get((x.get("callee") or "").replace("asmjit::", ""))
+            if g is None or g is ctx or len(g.params) != len(x["args"]):
+                return []
+            rets = list(g.return_sites())
+            if len(rets) != 1:
+                return []
+            body = g.e(rets[0][2]).get("val")
+            pidx = {p_["name"]: k_ for k_, p_ in enumerate(g.params)}
+            found = []      # (param name, kind)
+            for c in conjuncts_of(g, body):
                 cx = g.e(c)
                 if cx and cx["k"] in ("call", "mcall") and cx.get("cn") == "bit_vector_get_bit" and "_used_bit_vector" in g.text(cx["args"][0]) \
-                        and (g.access_path(cx["args"][1]) or "") == pname:
-                    kinds.add("used")
+                        and (g.access_path(cx["args"][1]) or "") in pidx:
+                    found.append((g.access_path(cx["args"][1]), "used"))
                 t = re.sub(r"\s+", "", g.text(c))
-                if re.search(r"bit_vector_get_bit\([^,]*_stop_bit_vector,%s-1\)" % re.escape(pname), t):
-                    kinds.add("span-start")
-            return fn.access_path(x["args"][0]), tuple(kinds)
+                for pn in pidx:
+                    if re.search(r"bit_vector_get_bit\([^,]*_stop_bit_vector,%s-1\)" % re.escape(pn), t):
+                        found.append((pn, "span-start"))
+                for (pp, kd) in helper_facts(g, c, depth + 1):
+                    if pp in pidx:
+                        found.append((pp, kd))
+            out = []
+            for pn, kd in found:
+                ap = ctx.access_path(x["args"][pidx[pn]])
+                if ap:
+                    out.append((ap, kd))
+            return out
+
+        def helper_idx(atom):
+            facts = helper_facts(fn, atom)
+            if not facts:
+                return None, ()
+            p0 = facts[0][0]
+            return p0, tuple(kd for pp, kd in facts if pp == p0)
 
         def edge_fx(b, si, atom, holds):
             p = used_idx(atom)
